@@ -8,7 +8,7 @@ Definition hmac_of (km : list N * list N) : list N := hmac_sha1 (fst km) (snd km
 (* pin: whenever a hash is produced it is SHA1(layout1 client_salt (SHA1(layout0 bytes server_salt))) *)
 Lemma layout_pin pin seed ss cs h :
   Pin.calculate_hash pin seed ss cs = Ok (Some h) ->
-  exists bytes, h = sha1 (lay_pin_calculate_hash_1 cs (sha1 (lay_pin_calculate_hash_0 bytes ss))).
+  exists bytes, h = sha1 (lay_pin_calculate_hash_1 cs (sha1 (lay_pin_calculate_hash_0 ss bytes))).
 Proof.
   unfold Pin.calculate_hash. intros H.
   destruct (pin_to_bytes _ _) as [b| |]; cbn [bind] in H; try discriminate.
@@ -21,12 +21,12 @@ Qed.
 
 Lemma layout_integrity_generic files salt key :
   login_integrity_check_generic files salt key =
-  sha1 (lay_integrity_finalise_0 (hmac_of (lay_integrity_login_integrity_check_generic_0 files salt)) key).
+  sha1 (lay_integrity_finalise_0 key (hmac_of (lay_integrity_login_integrity_check_generic_0 files salt))).
 Proof. reflexivity. Qed.
 
 Lemma layout_integrity_mac f1 f2 f3 f4 f5 salt key :
   login_integrity_check_mac f1 f2 f3 f4 f5 salt key =
-  sha1 (lay_integrity_finalise_0 (hmac_of (lay_integrity_login_integrity_check_mac_0 salt f2 f3 f5 f1 f4)) key).
+  sha1 (lay_integrity_finalise_0 key (hmac_of (lay_integrity_login_integrity_check_mac_0 f1 f2 f3 f4 f5 salt))).
 Proof.
   unfold login_integrity_check_mac, finalise, hmac_finalize, hmac_update, hmac_new, hmac_of,
     lay_integrity_finalise_0, lay_integrity_login_integrity_check_mac_0.
@@ -35,7 +35,7 @@ Qed.
 
 Lemma layout_integrity_windows f1 f2 f3 f4 f5 salt key :
   login_integrity_check_windows f1 f2 f3 f4 f5 salt key =
-  sha1 (lay_integrity_finalise_0 (hmac_of (lay_integrity_checksum_0 f4 f2 f3 salt f5 f1)) key).
+  sha1 (lay_integrity_finalise_0 key (hmac_of (lay_integrity_checksum_0 salt f1 f2 f3 f4 f5))).
 Proof.
   unfold login_integrity_check_windows, checksum, finalise, hmac_finalize, hmac_update, hmac_new, hmac_of,
     lay_integrity_finalise_0, lay_integrity_checksum_0.
@@ -53,15 +53,15 @@ Proof.
 Qed.
 
 Lemma layout_tbc K :
-  Tbc.encrypter_new K = (let* k := into_key_array (hmac_of (lay_tbc_header_encrypt_new_0 tbc_seed_enc K)) in
+  Tbc.encrypter_new K = (let* k := into_key_array (hmac_of (lay_tbc_header_encrypt_new_0 K tbc_seed_enc)) in
                          Ok {| Tbc.h_key := k; Tbc.h_st := {| HeaderCipher.c_idx := 0; HeaderCipher.c_prev := 0 |} |}) /\
-  Tbc.decrypter_new K = (let* k := into_key_array (hmac_of (lay_tbc_header_decrypt_new_0 tbc_seed_dec K)) in
+  Tbc.decrypter_new K = (let* k := into_key_array (hmac_of (lay_tbc_header_decrypt_new_0 K tbc_seed_dec)) in
                          Ok {| Tbc.h_key := k; Tbc.h_st := {| HeaderCipher.c_idx := 0; HeaderCipher.c_prev := 0 |} |}).
 Proof. split; reflexivity. Qed.
 
 Lemma layout_wrath K dirkey :
   inner_new K dirkey =
-  match rc4_new (hmac_of (lay_wrath_header_inner_crypto_mod_new_0 dirkey K)) with
+  match rc4_new (hmac_of (lay_wrath_header_inner_crypto_mod_new_0 K dirkey)) with
   | Ok r => match apply_keystream r (repeat 0%N (N.to_nat Consts.wrath_drop)) with
             | Ok (r', _) => Ok r' | Err e => Err e | Panic => Panic end
   | Err e => Err e | Panic => Panic
